@@ -312,6 +312,13 @@ impl TCheck for C13 {
         // source kinds: 0 = memory (Vec<u8>), 1 = file, 2 = a memory map of the file (any
         // `AsRef<[u8]>` value converts into a `Reader`); raw or decoded is decided by the hints
         let backing = rng.below(3);
+        // one work in four: after the pack is opened its name is given to another file of the
+        // same length (a new edition renamed into place while this reader has the old one open);
+        // every view keeps showing the bytes of the file that was opened. File-backed then.
+        let replaced = work % 4 == 2 || work % 20 == 9;
+        let backing = if replaced { 1 } else { backing };
+        // one work in four: the readers keep only the regions and close the pack before reading
+        let outlive = work % 4 == 1;
         let comp = *rng.pick(&[Comp::None, Comp::Zstd(3), Comp::Lz4(3), Comp::Lzma(1), Comp::Zstd(3)]);
         // one work in ten has contents larger than 64 KiB (views and slices beyond 65535 bytes)
         let big = work % 10 == 9;
@@ -322,6 +329,12 @@ impl TCheck for C13 {
             let last = contents.len() - 1;
             let len = rng.range(70_000, 200_000) as usize;
             contents[last].bytes = Arc::new(gen::gen_bytes(&mut rng, last, len, gen::Flavor::Text));
+            if replaced {
+                // and raw, above 128 KiB
+                let len = rng.range(140_000, 300_000) as usize;
+                contents[last].bytes = Arc::new(gen::gen_bytes(&mut rng, last, len, gen::Flavor::Text));
+                contents[last].hint = gen::Hint::No;
+            }
         }
         // one work in twenty has a content of several MiB (slices and reads above 1 MiB that are
         // not a multiple of it), stored raw or compressed
@@ -391,10 +404,10 @@ impl TCheck for C13 {
                     .collect()
             })
             .collect();
-        let desc = json!({"several_MiB_content": huge, "image": gen::describe(&logical), "backing": (["memory", "file", "mmap"][backing as usize]),
+        let desc = json!({"name_given_to_another_file_after_open": replaced, "regions_outlive_the_pack": outlive, "several_MiB_content": huge, "image": gen::describe(&logical), "backing": (["memory", "file", "mmap"][backing as usize]),
                           "readers": readers, "programs": programs, "decode_chunk": chunk});
         let mut programs = programs;
-        if huge {
+        if huge || (big && replaced) {
             programs[0][0].0 = model.contents.len() - 1;
         }
         let programs = Arc::new(programs);
@@ -403,6 +416,13 @@ impl TCheck for C13 {
             knobs,
             body: Arc::new(move |slot: &Slot| {
                 let mut rep = BodyReport::default();
+                if replaced {
+                    // (an earlier execution of this work left the other file under the name)
+                    let tmp = pack_path.with_extension("orig");
+                    if let Err(e) = std::fs::write(&tmp, pack_bytes.as_ref()).and_then(|_| std::fs::rename(&tmp, &pack_path)) {
+                        simcore::harness_error(&format!("C13: cannot restore the pack file: {e}"));
+                    }
+                }
                 let reader: jubako::Reader = if backing == 0 {
                     pack_bytes.as_ref().clone().into()
                 } else if backing == 2 {
@@ -432,6 +452,14 @@ impl TCheck for C13 {
                         return;
                     }
                 };
+                if replaced {
+                    let other: Vec<u8> = pack_bytes.iter().map(|b| !b).collect();
+                    let tmp = pack_path.with_extension("new");
+                    if let Err(e) = std::fs::write(&tmp, &other).and_then(|_| std::fs::rename(&tmp, &pack_path)) {
+                        simcore::harness_error(&format!("C13: cannot replace the pack file: {e}"));
+                    }
+                    rep.notes.insert("fault:name-given-to-another-file-after-open".into(), 1);
+                }
                 let complaints: Arc<Mutex<Vec<String>>> = Arc::new(Mutex::new(vec![]));
                 let ops_total: Arc<Mutex<u64>> = Arc::new(Mutex::new(0));
                 let order: Arc<Mutex<Vec<u32>>> = Arc::new(Mutex::new(vec![]));
@@ -444,19 +472,54 @@ impl TCheck for C13 {
                     let ops_total = Arc::clone(&ops_total);
                     let order = Arc::clone(&order);
                     let job = move || {
-                        for (content, walk_seed) in prog {
+                        let mut pack = Some(pack);
+                        // views are owned values: with `outlive` every region is asked for first,
+                        // then this reader lets go of the pack (the last one closes it)
+                        let mut held: Vec<Option<ByteRegion>> = vec![];
+                        if outlive {
+                            for (content, _) in prog.iter() {
+                                let cm = &model.contents[*content];
+                                held.push(match pack.as_ref().unwrap().get_content(jubako::ContentIdx::from(cm.content_id)) {
+                                    Ok(Some(r)) => Some(r),
+                                    other => {
+                                        complaints.lock().unwrap().push(format!(
+                                            "reader {who}: get_content({content}) answered {:?}",
+                                            other.map(|o| o.is_some()).map_err(|e| simcore::dump::err_class(&e))
+                                        ));
+                                        None
+                                    }
+                                });
+                            }
+                            pack = None;
+                        }
+                        for (k, (content, walk_seed)) in prog.into_iter().enumerate() {
                             let cm = &model.contents[content];
                             let mut bad = vec![];
-                            let region = match pack.get_content(jubako::ContentIdx::from(cm.content_id)) {
-                                Ok(Some(r)) => r,
-                                other => {
-                                    complaints.lock().unwrap().push(format!(
-                                        "reader {who}: get_content({content}) answered {:?}",
-                                        other.map(|o| o.is_some()).map_err(|e| simcore::dump::err_class(&e))
-                                    ));
-                                    continue;
+                            let region = if outlive {
+                                match held[k].take() {
+                                    Some(r) => r,
+                                    None => continue,
+                                }
+                            } else {
+                                match pack.as_ref().unwrap().get_content(jubako::ContentIdx::from(cm.content_id)) {
+                                    Ok(Some(r)) => r,
+                                    other => {
+                                        complaints.lock().unwrap().push(format!(
+                                            "reader {who}: get_content({content}) answered {:?}",
+                                            other.map(|o| o.is_some()).map_err(|e| simcore::dump::err_class(&e))
+                                        ));
+                                        continue;
+                                    }
                                 }
                             };
+                            if replaced {
+                                // the whole content in one slice, whatever the seeded walk picks
+                                match region.get_slice(jubako::Offset::zero(), cm.bytes.len()) {
+                                    Ok(s) if s[..] == cm.bytes[..] => {}
+                                    Ok(_) => bad.push(format!("reader {who} content {content} ({} bytes): whole-content slice differs from the stored bytes", cm.bytes.len())),
+                                    Err(e) => bad.push(format!("reader {who} content {content}: whole-content slice failed: {}", simcore::dump::err_class(&e))),
+                                }
+                            }
                             let mut cx = Ctx {
                                 rng: Rng::derive(walk_seed, "c13-walk", 0),
                                 bad: &mut bad,
@@ -476,6 +539,7 @@ impl TCheck for C13 {
                         handles.push(shuttle::thread::spawn(job));
                     }
                 }
+                drop(pack);
                 for h in handles {
                     if h.join().is_err() {
                         complaints.lock().unwrap().push("a reader task panicked".into());
